@@ -51,8 +51,9 @@ class World(object):
         self._parents(path)
         if path not in self.nodes:
             self.order.append(path)
-        if isinstance(content, bytes):
-            content = _s(content)
+        if isinstance(content, str):
+            content = content.encode('utf-8', 'surrogateescape')
+        content = _s(content)
         self.nodes[path] = ['f', path, mode, self._mt(mtime), content]
         return self
 
